@@ -38,6 +38,12 @@ var zzScripts = []zzScript{
 	{"run-error-after-output", "println(\"one\")\nprintln(undefined_name)\nprintln(\"never\")", 2},
 	{"throw", "println(\"t\")\nthrow \"boom\"", 2},
 	{"type-error", "a = 1\na.b = 2", 2},
+	{"builtin-misuse", "println(\"k\")\nkeys(1)", 2},
+	{"builtin-misuse-range", "range()", 2},
+	{"package-function-panics", "strings = import(\"strings\")\nstrings.Repeat(\"x\", -1)", 2},
+	{"stray-break", "println(1)\nbreak", 2},
+	{"stray-continue", "continue", 2},
+	{"go-function-error-value", "strconv = import(\"strconv\")\nr = strconv.Atoi(\"x\")\nprintln(r[1] != nil)", 0},
 	{"empty", "", 0},
 }
 
